@@ -27,6 +27,7 @@ class Hooks(object):
         self.log = None        # fn(level, msg)
         self.warn = None
         self.fmt = None        # list collecting formatting / str() calls (C20)
+        self.range_cap = None  # bound on every range() of the loaded code (loop unrolling bound, stated per harness)
 
 
 HOOKS = Hooks()
@@ -184,7 +185,13 @@ def b_len(x):
 
 
 def b_range(*a):
-    return range(*[arr.cidx(v) for v in a])
+    r = range(*[arr.cidx(v) for v in a])
+    if HOOKS.range_cap is not None and len(r) > HOOKS.range_cap:
+        p = core.CUR
+        if p is not None:
+            p.reached.add('range-capped')
+        return r[:HOOKS.range_cap]
+    return r
 
 
 def b_str(x=''):
